@@ -476,19 +476,34 @@ def _fold_case(nodes, is_bytes):
 
 
 class _Run:
-    """step account of one match / search / whole finditer iteration"""
+    """step account of one match / search / whole finditer iteration over `subject`"""
 
-    def __init__(self, length):
-        self.length = length
+    def __init__(self, subject):
+        self.subject = subject
+        self.length = len(subject)
         self.steps = 0
+        self.mark = 0            # steps when the current stretch began
+        self.native = False      # the subject has been realised, the interpreter runs untraced
+
+
+class _TracedAllowanceSpent(Exception):
+    """internal: the current stretch goes on untraced over the realised subject"""
 
 
 def _make_budget_pattern():
+    from crosshair.core import realize
+    from crosshair.tracers import NoTracing, is_tracing
     from .stubs_c07 import PyPattern, _check
 
     class BudgetPattern(PyPattern):
         """PyPattern of a compiled pattern of the code under test (str or bytes, no flags or IGNORECASE) that counts
-        its steps.  `what` names the parser the pattern belongs to, for the failure text."""
+        its steps.  `what` names the parser the pattern belongs to, for the failure text.
+
+        Under the tracer a step costs ~0.15 ms, the budget of a 100-character line is 500 000 steps.  So a stretch
+        (one search) gets a linear allowance of traced steps, max(4000, 30*L) - several times what the patterns of
+        the unchanged tree need on the lines of the families; when it is spent, the subject is realised (the solver
+        picks a value that satisfies every decision taken so far; the other values stay in the search tree for later
+        paths), and the stretch is run again, untraced, on that value up to the full budget."""
 
         def __init__(self, compiled, what):
             from re import _parser
@@ -506,30 +521,47 @@ def _make_budget_pattern():
             if compiled.flags & re.IGNORECASE:
                 nodes = _fold_case(nodes, self.is_bytes)
             self._nodes = nodes
-            self._run = _Run(0)
-            self.max_ratio = 0.0           # highest steps / budget seen (natively; for the evidence)
+            self._run = None
 
         def _seq(self, nodes, k, s, n, i, spans, cont):
             run = self._run
             run.steps += 1
             # the length may be a solver value: it is looked at only once the count passed the constant part
-            if run.steps > 1000 and run.steps > budget(run.length):
-                text = "%s: the regular expression %r did not finish within %d steps (50*L*L+1000) on a text of L = " \
-                       "%d characters: catastrophic backtracking, the request hangs in the regex engine" % (
-                           self.what, self.pattern, run.steps - 1, run.length)
-                HANGS.append(text)
-                raise DidNotFinish(text)
+            if run.steps > 1000:
+                if not run.native and run.steps - run.mark > 4000 and run.steps - run.mark > 30 * run.length \
+                        and is_tracing():
+                    raise _TracedAllowanceSpent()
+                if run.steps > budget(run.length):
+                    text = "%s: the regular expression %r did not finish within %d steps (50*L*L+1000) on a text of " \
+                           "L = %d characters: catastrophic backtracking, the request hangs in the regex engine" % (
+                               self.what, self.pattern, run.steps - 1, run.length)
+                    HANGS.append(text)
+                    raise DidNotFinish(text)
             return super()._seq(nodes, k, s, n, i, spans, cont)
 
         def _counted(self, run, call):
-            """one stretch of interpretation on the account `run`, with room for the interpreter's recursion (it
-            uses a few frames per character of the subject)"""
+            """one stretch of interpretation, `call(subject)`, on the account `run`, with room for the interpreter's
+            recursion (it uses a few frames per character of the subject)"""
             import sys
             before = sys.getrecursionlimit()
             sys.setrecursionlimit(max(before, 100000))
             self._run = run
+            run.mark = run.steps
             try:
-                return call()
+                if run.native and is_tracing():
+                    with NoTracing():
+                        return call(run.subject)
+                try:
+                    return call(run.subject)
+                except _TracedAllowanceSpent:
+                    pass
+                subject = run.subject
+                run.subject = _ByteText(realize(subject.data)) if self.is_bytes else realize(subject)
+                run.length = realize(run.length)
+                run.native = True
+                run.steps = run.mark
+                with NoTracing():
+                    return call(run.subject)
             finally:
                 sys.setrecursionlimit(before)
 
@@ -539,19 +571,16 @@ def _make_budget_pattern():
             return _ByteText(s) if self.is_bytes else s
 
         def match(self, s, pos=0):
-            s = self._text(s)
-            return self._counted(_Run(len(s)), lambda: self._match_at(s, len(s), pos, False))
+            return self._counted(_Run(self._text(s)), lambda t: self._match_at(t, len(t), pos, False))
 
         def search(self, s, pos=0):
-            s = self._text(s)
-            return self._counted(_Run(len(s)), lambda: self._search(s, pos, False))
+            return self._counted(_Run(self._text(s)), lambda t: self._search(t, pos, False))
 
         def finditer(self, s, pos=0):
-            s = self._text(s)
-            run = _Run(len(s))
+            run = _Run(self._text(s))
             must_advance = False
             while True:
-                m = self._counted(run, lambda: self._search(s, pos, must_advance))
+                m = self._counted(run, lambda t: self._search(t, pos, must_advance))
                 if m is None:
                     return
                 yield m
